@@ -177,6 +177,31 @@ impl Prop for C18 {
     fn run_case(&self, _cfg: &RunCfg, idx: usize, rng: &mut Rng, out: &mut Out) {
         let source = if idx < DIRECTED.len() {
             DIRECTED[idx].to_string()
+        } else if rng.chance(1, 30) {
+            // faults far down: 60-250 levels of brackets around a faulty core, a fault in the
+            // first operand of a long left-nested operator chain, or a deep source with faults
+            out.feat("fault_below_many_levels");
+            match rng.below(3) {
+                0 => {
+                    let d = rng.range(60, 250);
+                    let (open, close) = *rng.pick(&[("(", ")"), ("[", "]"), ("f(", ")")]);
+                    format!("x = {}1 $ 2{}\n", open.repeat(d), close.repeat(d))
+                }
+                1 => {
+                    let n = rng.range(60, 250);
+                    let mut s = String::from("total = [1 2]");
+                    for i in 0..n {
+                        s.push_str(&format!(" + v{}", i));
+                    }
+                    s.push('\n');
+                    s
+                }
+                _ => {
+                    let base = py::deep_source(rng);
+                    let k = rng.range(1, 3);
+                    py::inject_faults(rng, &base, k)
+                }
+            }
         } else {
             let base = py::gen_source(rng, 8);
             let faults = rng.below(7);
